@@ -857,8 +857,9 @@ def build_search_cases(ctx, rng, workdir, scale):
     neg = set(os.path.basename(p)[:-8] for p in glob.glob(os.path.join(SAMPLE_DIR, "*.nev.err")))
     # (0) minimised failures kept from earlier runs: always first
     cdir = os.path.join(common.VERIF, "corpus", "C05")
-    for p in sorted(glob.glob(os.path.join(cdir, "*.nev"))):
-        cases.append(Case("K." + os.path.basename(p)[:-4], "kept-corpus", open(p, "rb").read(), "str", None))
+    for p in sorted(glob.glob(os.path.join(cdir, "*.nev"))):      # <name>.file.nev is compiled through nev_compile_file
+        cases.append(Case("K." + os.path.basename(p)[:-4], "kept-corpus", open(p, "rb").read(),
+                          "file" if p.endswith(".file.nev") else "str", None))
     for d in sorted(glob.glob(os.path.join(cdir, "*/"))):
         mp = os.path.join(d, "main.nev")
         if os.path.exists(mp):
@@ -1209,7 +1210,7 @@ def _run(ctx, drv, pdrv, workdir, t0):
     rng = random.Random(ctx.seed * 1000003 + 5)
     thorough = ctx.tier == "thorough"
     t0s = time.time()
-    scale = 8.0 if thorough else 1.0
+    scale = 20.0 if thorough else 1.0
     broken_before = len(ctx.broken)
     verdict = msgbuf_correspondence(ctx, drv, workdir)
     usestack_correspondence(ctx, drv, workdir, rng, scale)
@@ -1258,6 +1259,22 @@ def _run(ctx, drv, pdrv, workdir, t0):
             ctx.sample({"class": c.cls, "input": show_input(c.data, 200), "ret": o.ret, "classifier": k,
                         "diagnostics_first_line": o.diag.split(b"\n")[0].decode("latin-1")[:120]})
     ctx.count(evaluations=len(cases), nontrivial=nontrivial)
+    # a time-out under 16-fold parallel load is not yet a hang: re-run those inputs a few at a time
+    # with a six times larger limit and keep only the ones that still do not finish
+    slow = [k for k in findings if k and k.startswith("hang:")]
+    if slow:
+        again = [c for k in slow for c, _, _ in findings[k]]
+        obs2 = run_cases(drv, again, workdir, timeout=60 if not thorough else 120, nproc=4, tag="h")
+        ver2 = classify(list(obs2.values()))
+        n_slow = len(again)
+        for k in slow:
+            del findings[k]
+        for c in again:
+            k2, key2, what2 = judge(c, obs2.get(c.id), ver2)
+            if k2 in ("violation", "timeout"):
+                findings.setdefault(key2, []).append((c, obs2.get(c.id), what2))
+        ctx.coverage["timeouts_rechecked"] = {"timed_out_under_load": n_slow,
+                                              "still_not_finishing_with_6x_limit": sum(len(v) for k, v in findings.items() if k and k.startswith("hang:"))}
     if harness:
         ctx.correspondence_broken("classifier-run", {"observations_without_verdict": len(harness), "first": harness[:5]})
     # stack overflows seen under ASan only count if the plain build (8 MiB stack) dies too
